@@ -1130,6 +1130,103 @@ def rule_R23(toks, fired):
     return toks
 
 
+def rule_R24(toks, fired):
+    """ITER.fold(INIT, |ACC, PAT| BODY)  ->  { let mut ACC = INIT; for PAT in ITER { ACC = BODY; } ACC }
+    (definition of Iterator::fold: the accumulator starts at INIT and is replaced by the closure's value, element by element)"""
+    i = 0
+    while i < len(toks):
+        t = toks[i]
+        if t.kind == "ident" and t.text == "fold" and not t.syn and toks[prev_code(toks, i - 1)].text == "." \
+                and toks[next_code(toks, i + 1)].text == "(":
+            dot = prev_code(toks, i - 1)
+            p = next_code(toks, i + 1)
+            pe = match_close(toks, p)
+            parts = split_top_commas(toks, p + 1, pe)
+            if len(parts) < 2:
+                raise ExtractError("R24: fold does not have two arguments")
+            init = _strip_ws(toks[parts[0][0]:parts[0][1]])
+            clo = toks[parts[1][0]:pe]      # the closure's own parameter list contains a top-level comma
+            c0 = next_code(clo, 0)
+            if clo[c0].text != "|":
+                raise ExtractError("R24: second argument of fold is not a closure")
+            c1 = c0 + 1
+            while clo[c1].text != "|":
+                if clo[c1].kind == "punct" and clo[c1].text in ("(", "["):
+                    c1 = match_close(clo, c1)
+                c1 += 1
+            params = split_top_commas(clo, c0 + 1, c1)
+            if len(params) != 2:
+                raise ExtractError("R24: fold closure does not have two parameters")
+            acc = _strip_ws(clo[params[0][0]:params[0][1]])
+            pat = _strip_ws(clo[params[1][0]:params[1][1]])
+            if not (len([x for x in acc if x.kind not in ("ws", "comment")]) == 1 and acc[0].kind == "ident"):
+                raise ExtractError("R24: accumulator parameter is not a plain identifier")
+            body = _strip_ws(clo[c1 + 1:])
+            a = _postfix_start(toks, dot)
+            recv = toks[a:dot]
+            an = acc[0].text
+            new = (synth(f"{{ let mut {an} = ") + init + synth("; ") + [_for_tok(), S(" ", "ws")] + pat + synth(" in ") + recv
+                   + synth(f" {{ {an} = ") + body + synth(f"; }} {an} }}"))
+            toks = toks[:a] + new + toks[pe + 1:]
+            fired["R24"] = fired.get("R24", 0) + 1
+            i = a + 1
+            continue
+        i += 1
+    return toks
+
+
+def rule_R25(toks, fired):
+    """fn f(.., p: impl BOUND, ..)  ->  fn f<OP: BOUND>(.., p: OP, ..)    (the desugaring of argument-position impl Trait;
+    Verus' encoding of closure specifications needs the named parameter)"""
+    he = fn_header_end(toks)
+    i = 0
+    while i < he and not (toks[i].kind == "ident" and toks[i].text == "fn"):
+        i += 1
+    name = next_code(toks, i + 1)
+    nx = next_code(toks, name + 1)
+    gen_close = None
+    if toks[nx].text == "<":
+        gen_close = match_angle(toks, nx)
+        po = next_code(toks, gen_close + 1)
+    else:
+        po = nx
+    pc = match_close(toks, po)
+    new_params = []
+    j = po + 1
+    n = 0
+    while j < pc:
+        t = toks[j]
+        if t.kind == "ident" and t.text == "impl" and toks[prev_code(toks, j - 1)].text == ":":
+            # bound extends to the top-level ',' or the closing paren
+            e = j + 1
+            adepth = 0
+            while e < pc:
+                x = toks[e]
+                if x.kind == "punct" and x.text in OPEN:
+                    e = match_close(toks, e) + 1
+                    continue
+                if x.kind == "punct" and x.text == "," and adepth == 0:
+                    break
+                e += 1
+            n += 1
+            gname = "OP" if n == 1 else f"OP{n}"
+            bound = _strip_ws(toks[j + 1:e])
+            new_params.append((gname, bound))
+            toks = toks[:j] + synth(gname) + toks[e:]
+            pc = match_close(toks, po)
+            fired["R25"] = fired.get("R25", 0) + 1
+        j += 1
+    if new_params:
+        gl = []
+        for k, (g, b) in enumerate(new_params):
+            gl += synth(("" if k == 0 else ", ") + g + ": ") + b
+        if gen_close is not None:
+            toks = toks[:gen_close] + synth(", ") + gl + toks[gen_close:]
+        else:
+            toks = toks[:name + 1] + synth("<") + gl + synth(">") + toks[name + 1:]
+    return toks
+
+
 def rule_R18(toks, fired):
     """bare max(a, b) / min(a, b) (core::cmp, imported by `use`) -> usize_max(a, b) / usize_min(a, b): the generic
     Ord-based functions have no Verus spec; the prelude helpers are ASSUMED to be the usize instances"""
@@ -1250,9 +1347,9 @@ def rule_R12(toks, fired):
     return out
 
 
-RULES = {"R23": rule_R23, "R22": rule_R22, "R21": rule_R21, "R20": rule_R20, "R19": rule_R19, "R18": rule_R18, "R17": rule_R17, "R13": rule_R13, "R5": rule_R5, "R1": rule_R1, "R1f": rule_R1f, "R2": rule_R2, "R3": rule_R3, "R4": rule_R4, "R6": rule_R6, "R7": rule_R7,
+RULES = {"R25": rule_R25, "R24": rule_R24, "R23": rule_R23, "R22": rule_R22, "R21": rule_R21, "R20": rule_R20, "R19": rule_R19, "R18": rule_R18, "R17": rule_R17, "R13": rule_R13, "R5": rule_R5, "R1": rule_R1, "R1f": rule_R1f, "R2": rule_R2, "R3": rule_R3, "R4": rule_R4, "R6": rule_R6, "R7": rule_R7,
          "R10": rule_R10, "R11": rule_R11, "R12": rule_R12}
-RULE_ORDER = ["R12", "R7", "R6", "R13", "R18", "R19", "R17", "R21", "R22", "R23", "R20", "R10", "R4", "R3", "R5", "R11", "R2", "R1", "R1f"]
+RULE_ORDER = ["R12", "R25", "R7", "R6", "R13", "R18", "R19", "R17", "R21", "R22", "R23", "R24", "R20", "R10", "R4", "R3", "R5", "R11", "R2", "R1", "R1f"]
 
 
 def apply_rules(toks, rules, fired):
@@ -1481,6 +1578,43 @@ def merge_fn(toks, opts, sections, fired):
                 add(a, bracket(text + "\n"))
             else:
                 add(b + 1, bracket("\n" + text + "\n"))
+    # //@closure k : first line = parameter types (comma separated), rest = return binder and spec of the k-th closure
+    #   |x| BODY   ->   |x/*@<*/: F/*@>*/| /*@<*/-> (r: F) ensures .. {/*@>*/ BODY /*@<*/}/*@>*/
+    clos = [i for i in range(he + 1, bc) if toks[i].kind == "punct" and toks[i].text == "|"
+            and toks[prev_code(toks, i - 1)].text in ("(", ",", "=", "return")]
+    for key, text in sections.items():
+        m = re.fullmatch(r"closure (\d+)", key)
+        if not m:
+            continue
+        k = int(m.group(1))
+        if k > len(clos):
+            raise ExtractError(f"lost anchor: annotation for closure {k} but function has {len(clos)} closures")
+        c0 = clos[k - 1]
+        c1 = c0 + 1
+        while toks[c1].text != "|":
+            if toks[c1].kind == "punct" and toks[c1].text in ("(", "["):
+                c1 = match_close(toks, c1)
+            c1 += 1
+        lines = text.strip("\n").split("\n")
+        types = [x.strip() for x in lines[0].split(",")]
+        params = split_top_commas(toks, c0 + 1, c1)
+        if len(params) != len(types):
+            raise ExtractError(f"lost anchor: closure {k} has {len(params)} parameters, annotation gives {len(types)} types")
+        for (pa, pb), ty in zip(params, types):
+            add(prev_code(toks, pb - 1) + 1, bracket(": " + ty))
+        # body end: the top-level ',' or ')' that ends the closure argument
+        e = c1 + 1
+        depth = 0
+        while True:
+            x = toks[e]
+            if x.kind == "punct" and x.text in OPEN:
+                e = match_close(toks, e) + 1
+                continue
+            if x.kind == "punct" and (x.text in CLOSE or x.text == ","):
+                break
+            e += 1
+        add(c1 + 1, bracket(" -> " + " ".join(l.strip() for l in lines[1:]) + " { "))
+        add(e, bracket(" }"))
     if "pre" in sections:
         add(he + 1, bracket("\n" + sections["pre"] + "\n"))
     if "post" in sections:
